@@ -86,7 +86,7 @@ def run_case(case, tier):
                 tu = os.path.join(wd, "s%d.tu" % i)
                 svt.write_tu([b for _, b in r.packets()], tu)
                 wcases.append(dict(dec=(tu, ins["threads"], ins["is16"]), start_delay_us=ins["delay_ms"] * 1000))
-        env = {"SVTDEC_SLACK": "32"} if variant == "asan" else None
+        env = None
         solo = []
         for wc in wcases:
             r = svt.run_encode(dict(wc, start_delay_us=0), variant, timeout=300, env=env)
